@@ -173,6 +173,14 @@ def flat_out_kind(name, k):
     raise KeyError(name)
 
 
+_NOTHING = object()
+
+
+def _nextlen(it):
+    first = next(it, _NOTHING)
+    return [0] if first is _NOTHING else [1 + sum(1 for _ in it)]
+
+
 def _sump(it):
     return [sum(it)]
 
@@ -184,6 +192,9 @@ PART = {  # name -> (function on an iterator, homomorphic?, applies(kind), out k
     'dupp': (lambda it: (y for x in it for y in (x, x)), True),
     'rev': (lambda it: reversed(list(it)), False),
     'countp': (lambda it: [sum(1 for _ in it)], False),
+    # a partition function receives an ITERATOR (as in Spark): a second pass over it sees nothing, next() works on it
+    'twicep': (lambda it: [sum(1 for _ in it), sum(1 for _ in it)], False),
+    'nextlen': (_nextlen, False),
     'firstp': (lambda it: list(it)[:1], False),
     'sump': (_sump, False),
 }
@@ -194,7 +205,7 @@ def part_out_kind(name, k):
         return k
     if name in ('incp', 'evensp', 'sump'):
         return 'I' if k == 'I' else None
-    if name == 'countp':
+    if name in ('countp', 'twicep', 'nextlen'):
         return 'I'
     raise KeyError(name)
 
